@@ -242,7 +242,6 @@ func runC19(cfg *Cfg, rec *ev.Rec) {
 		scalarRound(rng, rec)
 	}
 	apiRounds(cfg, rec, cfg.n(160, 3200), "c19-api")
-	rec.Sample(map[string]interface{}{"direct_rounds": n, "layout": mon.Layout})
 }
 
 func replayScalar(rec *ev.Rec, c map[string]interface{}) {
